@@ -229,6 +229,21 @@ func (r *rewriter) typeOf(e ast.Expr) types.Type {
 	if tv, ok := r.info.Types[e]; ok {
 		return tv.Type
 	}
+	// nodes created by the access rewrite: look through mcrt.RMap(x) / mcrt.WMap(x) and (*mcrt.R(&x)) / (*mcrt.W(&x))
+	switch x := e.(type) {
+	case *ast.CallExpr:
+		if (isMcrtCall(x, "RMap") || isMcrtCall(x, "WMap")) && len(x.Args) == 1 {
+			return r.typeOf(x.Args[0])
+		}
+	case *ast.ParenExpr:
+		return r.typeOf(x.X)
+	case *ast.StarExpr:
+		if c, ok := x.X.(*ast.CallExpr); ok && (isMcrtCall(c, "R") || isMcrtCall(c, "W")) && len(c.Args) == 1 {
+			if u, ok := c.Args[0].(*ast.UnaryExpr); ok && u.Op == token.AND {
+				return r.typeOf(u.X)
+			}
+		}
+	}
 	return nil
 }
 
